@@ -145,6 +145,8 @@ impl<C: Clone + std::fmt::Debug + 'static> SubDyn for Sub<C> {
                         s.evaluations += obs.sub_evals.max(1);
                         for c in &obs.classes { *s.classes.entry(format!("{sub}/{c}")).or_insert(0) += 1; }
                         for k in &obs.nt_keys { s.nontrivial.insert(hash_str(&format!("{sub}|{k}"))); }
+                        // checks that count non-trivial units inside a case (C14: crash points) still show what a case looks like
+                        if !obs.nontrivial && !obs.nt_keys.is_empty() && s.samples.len() < 3 { let units: Vec<String> = obs.nt_keys.iter().take(4).cloned().collect(); s.samples.push(object! { sub: sub, case: to_json(&case), nontrivial_units_in_this_case: obs.nt_keys.len(), first_units: units }); }
                         if obs.nontrivial {
                             let j = to_json(&case);
                             let key = match &obs.shape { Some(k) => k.clone(), None => j.dump() };
